@@ -4,7 +4,7 @@ namespace Gen.C12
 /-- `chromosome_order()` leaves out included names that contain '_' -/
 def orderSkipsUnderscore : Bool := false
 /-- `iter_chromosomes` raises on a mis-ordered trailing group before handing out the last item -/
-def iterLookahead : Bool := false
+def iterLookahead : Bool := true
 /-- `SynchedStream.__iter__` raises on a mis-ordered trailing group before handing out the last item -/
 def syncLookahead : Bool := true
 end Gen.C12
